@@ -6,6 +6,8 @@ import IxaiVerif.Model.Explainer
 import IxaiVerif.Model.Effect
 import IxaiVerif.Model.SlidingWindow
 import IxaiVerif.Model.RiverLoss
+import IxaiVerif.Model.Wrapper
+import IxaiVerif.Model.Tree
 
 namespace Ixai.Driver
 open Lean Ixai
@@ -298,5 +300,74 @@ def opImputeInputs (j : Json) : Except String Json := do
       pure (List.replicate n (defaultInput vals S x))
     | s => .error s!"unknown strategy {s}"
   pure (Json.mkObj [("inputs", Json.arr (inputs.map (fun z => jRats (instKey d z))).toArray)])
+
+end Ixai.Driver
+
+namespace Ixai.Driver
+open Lean Ixai Ixai.Wrapper
+
+def asArr (j : Json) : Except String (Arr Rat) := do
+  let shape ← getNats j "shape"
+  let data ← getRats j "data"
+  pure { shape := shape, data := data }
+
+def jLabel : Label → Json
+  | .output => Json.str "output"
+  | .idx i => jNat i
+
+def jOut (d : List (Label × Rat)) : Json := Json.arr (d.map (fun kv => Json.arr #[jLabel kv.1, jRat kv.2])).toArray
+
+def asFDict (j : Json) : Except String (FDict Rat) := asDict j
+
+/-- wrapper call; `pred` is the recorded table input data ↦ output array of the wrapped prediction function -/
+def opWrapper (j : Json) : Except String Json := do
+  let names ← match j.getObjVal? "names" with
+    | .ok Json.null => pure none
+    | .ok v => (asNatList v).map some
+    | .error _ => pure none
+  let table ← (← getArr j "pred").mapM (fun e => do
+    match e with
+    | Json.arr #[i, o] => pure ((← asRatList i), (← asArr o))
+    | _ => .error "pred entry [input data, output array] expected")
+  let predict : Arr Rat → Arr Rat := fun a =>
+    match table.find? (fun e => e.1 == a.data) with
+    | some e => e.2
+    | none => { shape := [1], data := [123456789] }
+  match j.getObjVal? "x" with
+  | .ok x => do
+    let r := callOne names predict (← asFDict x)
+    pure (Json.mkObj [("one", match r with | some d => jOut d | none => Json.str "KeyError")])
+  | .error _ => do
+    let xs ← (← getArr j "xs").mapM asFDict
+    let r := callMany names predict xs
+    pure (Json.mkObj [("many", match r with
+      | some ds => Json.arr (ds.map jOut).toArray
+      | none => Json.str "KeyError")])
+
+/-- river wrapper over a stream of raw predictions: {"d": dict} | {"n": number} | {"l": label id} -/
+def opRiverWrap (j : Json) : Except String Json := do
+  let ys ← (← getArr j "stream").mapM (fun e => do
+    match e.getObjVal? "d" with
+    | .ok d => pure (RiverOut.dict (← asDict d))
+    | .error _ =>
+      match e.getObjVal? "n" with
+      | .ok v => pure (RiverOut.num (← asRat v))
+      | .error _ => pure (RiverOut.label (← asNat (← e.getObjVal? "l"))))
+  let (outs, _) := ys.foldl (fun (acc : List Json × List Nat) y =>
+    let (o, seen') := extendDict acc.2 y
+    let jo := match o with
+      | .inl d => Json.arr (d.map (fun kv => Json.arr #[jNat kv.1, jRat kv.2])).toArray
+      | .inr d => jOut d
+    (acc.1 ++ [jo], seen')) ([], [])
+  pure (Json.mkObj [("outs", Json.arr outs.toArray)])
+
+def opValidate (j : Json) : Except String Json := do
+  let o ← getStr j "owner"
+  let ow ← match o with
+    | "wrapper" => pure Owner.wrapper | "boundSklearn" => pure Owner.boundSklearn | "boundRiver" => pure Owner.boundRiver
+    | "boundOther" => pure Owner.boundOther | "torchModule" => pure Owner.torchModule | "plain" => pure Owner.plain
+    | s => .error s!"unknown owner {s}"
+  pure (Json.mkObj [("wrapped", Json.str (match validate ow with
+    | .unchanged => "unchanged" | .sklearn => "sklearn" | .river => "river" | .torch => "torch"))])
 
 end Ixai.Driver
